@@ -24,6 +24,8 @@ import KrakenModel.Model.Retry
     fcFinish d downs   the rest: SyncExec of the tasks found, clear the flag, delete
     fcAtomic d downs   both without interleaving
     restart            process crash + start (threads die; files, flags, table, backend survive)
+    fetch d            the blob enters the cache without any write-back (internal transfer from another
+                       origin, download from the backend): no flag, no task
 -/
 namespace KrakenModel.OriginWB
 open KrakenModel.Retry (Key)
@@ -66,6 +68,7 @@ inductive Op where
   | fcFinish (d : Digest) (downs : List Key)
   | fcAtomic (d : Digest) (downs : List Key)
   | restart
+  | fetch (d : Digest)
   deriving DecidableEq, Repr
 
 def ins (l : List Nat) (x : Nat) : List Nat := if x ∈ l then l else l ++ [x]
@@ -172,6 +175,7 @@ def step (dig : Key → Digest) (s : State) : Op → State
     if d ∈ s.cache then fcRun dig s (fcSnapshot dig s d) downs else s
   | .restart =>
     { s with r := Retry.step (Retry.step s.r .crash) (.start []), wb := [], fc := [] }
+  | .fetch d => { s with cache := ins s.cache d }
 
 def init (cfg : Retry.Config) : State := { r := Retry.init cfg }
 
